@@ -86,7 +86,14 @@ func init() {
 			so, se := &lockedBuf{}, &lockedBuf{}
 			x.Put("so", so)
 			x.Put("se", se)
-			lc := newLive(x, liveOpts{proto: p["proto"], pStdout: outR, pStderr: errR, syncOut: so, syncErr: se})
+			lo := liveOpts{proto: p["proto"], pStdout: outR, pStderr: errR, syncOut: so, syncErr: se}
+			switch p["only"] { // the host configured just one of the two sync writers
+			case "out":
+				lo.syncErr = nil
+			case "err":
+				lo.syncOut = nil
+			}
+			lc := newLive(x, lo)
 			x.Put("lc", lc)
 			d := newDone(x)
 			x.Put("d", d)
@@ -146,7 +153,7 @@ func init() {
 				}
 			})
 			// wait (virtual time) until everything expected has arrived, or 10 s
-			for i := 0; i < 400 && (so.Len() < len(outAll) || se.Len() < len(errAll)); i++ {
+			for i := 0; i < 400 && ((p["only"] != "err" && so.Len() < len(outAll)) || (p["only"] != "out" && se.Len() < len(errAll))); i++ {
 				x.Pause(100 * time.Millisecond)
 			}
 			<-rpcDone
@@ -158,6 +165,9 @@ func init() {
 		},
 		Check: func(x *vs.Exec, p explore.Params) {
 			desc := fmt.Sprintf("proto=%s stdout writes=[%s] stderr writes=[%s] attach=%s", p["proto"], p["out"], p["err"], p["attach"])
+			if p["only"] != "" {
+				desc += " configured=Sync" + map[string]string{"out": "Stdout", "err": "Stderr"}[p["only"]] + "-only"
+			}
 			x.Put("nontrivial", p["out"] != "" || p["err"] != "")
 			if x.Data["completed"] != true {
 				if len(x.Violations()) == 0 && x.Data["skipped"] != true {
@@ -182,8 +192,12 @@ func init() {
 				}
 				x.Fail(class, "%s: received %d bytes, plugin wrote %d; first difference at offset %d [%s]", name, len(got), len(want), n, desc)
 			}
-			cmp("SyncStdout", x.Data["gotOut"].([]byte), x.Data["outAll"].([]byte))
-			cmp("SyncStderr", x.Data["gotErr"].([]byte), x.Data["errAll"].([]byte))
+			if p["only"] != "err" {
+				cmp("SyncStdout", x.Data["gotOut"].([]byte), x.Data["outAll"].([]byte))
+			}
+			if p["only"] != "out" {
+				cmp("SyncStderr", x.Data["gotErr"].([]byte), x.Data["errAll"].([]byte))
+			}
 			if e, ok := x.Data["rpcerr"]; ok && x.TimeDevs == 0 {
 				x.Fail("L", "RPC concurrent with stdio traffic failed: %v [%s]", e, desc)
 			}
@@ -207,6 +221,8 @@ func init() {
 						out = append(out, explore.Params{"proto": proto, "out": "1025,1", "err": "4097", "attach": at})
 						out = append(out, explore.Params{"proto": proto, "out": "10000", "err": "1,1024", "attach": at})
 					}
+					out = append(out, explore.Params{"proto": proto, "out": "1025,1", "err": "4097", "attach": "after", "only": "out"})
+					out = append(out, explore.Params{"proto": proto, "out": "1025,1", "err": "4097", "attach": "before", "only": "err"})
 				}
 				return out
 			case "thorough":
@@ -230,6 +246,14 @@ func init() {
 					for _, o := range seqs {
 						for _, e := range seqs {
 							out = append(out, explore.Params{"proto": proto, "out": o, "err": e, "attach": at})
+						}
+					}
+				}
+				// only one of the two sync writers configured
+				for _, only := range []string{"out", "err"} {
+					for _, at := range []string{"before", "after"} {
+						for _, oe := range [][2]string{{"1", "1"}, {"1025,1", "4097"}, {"10000", "1,1024"}, {"70000", "70000"}, {"4096", ""}, {"", "4096"}, {"1,@3000,1025", "1,@3000,1025"}} {
+							out = append(out, explore.Params{"proto": proto, "out": oe[0], "err": oe[1], "attach": at, "only": only})
 						}
 					}
 				}
